@@ -73,6 +73,11 @@ def cases(tier, seed):
             yield ('big', scale, B, 3000, 5, seed)
         yield ('big', scale, 9, 70000, 2, seed)          # beyond 2^16 samples
         yield ('range', scale, 6, 600, 2, seed)          # amplitudes spanning 8 orders of magnitude inside one IMF
+    # hand-made bin edges: EVERY strictly increasing edge set of 3..7 (thorough: 3..9) edges drawn from the grid 0..10
+    # (irregular widths; bins of any width next to each other; the first width telling nothing about the others)
+    for k in range(3, 8 if tier == 'quick' else 10):
+        for sub in itertools.combinations(range(11), k):
+            yield ('irr', sub, seed)
     for B in range(1, b['max_bins'] + 1):
         for scale in ('linear', 'log') + (('linear-neg',) if B <= 2 else ()):
             nal = 3 * B + 5
@@ -86,6 +91,8 @@ def decode_case(c):
     c = list(c)
     if c[0] == 'hht':
         c[6] = tuple(c[6])
+    if c[0] == 'irr':
+        c[1] = tuple(c[1])
     return tuple(c)
 
 
@@ -113,6 +120,47 @@ def brute(f, a, edges, mode):
                     out[b, t] += v
                     out1[b, m] += v
     return out, out1
+
+
+def check_irregular(case):
+    """User-supplied irregular edges: one sample at every grid value, just below it, half-way to the next, and outside."""
+    from emd.spectra import hilberthuang, hilberthuang_1d
+    _, sub, seed = case
+    edges = np.array(sub, dtype=float)
+    B = len(edges) - 1
+    vals = [-1.0, 10.5, 11.0]
+    for g in range(11):
+        vals += [float(g), float(np.nextafter(g, -np.inf)), g + 0.5]
+    vals = np.array(vals)
+    amp = 2.0 ** ((np.arange(len(vals)) + seed) % 11)
+    d = 'user-supplied edges %s' % (list(sub),)
+    viols = []
+    trans = 0
+    for lay, f, a in (('one IMF', vals[:, None], amp[:, None]), ('one time point', vals[None, :], amp[None, :]),
+                      ('3 IMFs', vals.reshape(-1, 3), amp.reshape(-1, 3))):
+        T, M = f.shape
+        for mode in ('energy', 'amplitude'):
+            exp2, exp1 = brute(f, a, edges, mode)
+            try:
+                dense = np.asarray(hilberthuang(f.copy(), a.copy(), edges.copy(), mode=mode))
+                sp = hilberthuang(f.copy(), a.copy(), edges.copy(), mode=mode, return_sparse=True)
+                one = np.asarray(hilberthuang_1d(f.copy(), a.copy(), edges.copy(), mode=mode))
+            except Exception as e:
+                viols.append(('irr:raise:%s' % type(e).__name__, '%s (%s, mode=%s) raised %r' % (d, lay, mode, e)))
+                continue
+            trans += 3
+            if dense.shape != (B, T) or one.shape != (B, M) or sp.shape != (B, T):
+                viols.append(('irr:shape', '%s (%s): shapes dense %r sparse %r 1d %r' % (d, lay, dense.shape, sp.shape, one.shape)))
+                continue
+            if not np.array_equal(dense, exp2):
+                bt = np.argwhere(dense != exp2)[0]
+                viols.append(('irr:dense-vs-brute', '%s (%s, mode=%s): dense spectrum wrong, e.g. bin %d time %d holds %r expected %r (frequencies %s)'
+                              % (d, lay, mode, bt[0], bt[1], dense[bt[0], bt[1]], exp2[bt[0], bt[1]], f[bt[1]].tolist())))
+            if not np.array_equal(np.asarray(sp.toarray()), dense):
+                viols.append(('irr:sparse-vs-dense', '%s (%s, mode=%s): sparse and dense spectra differ' % (d, lay, mode)))
+            if not np.array_equal(one, exp1):
+                viols.append(('irr:1d-vs-brute', '%s (%s, mode=%s): 1d spectrum %s expected %s' % (d, lay, mode, one.tolist(), exp1.tolist())))
+    return Outcome(cls='irregular', transitions=trans, viols=viols, nontrivial=True)
 
 
 def check_big(case):
@@ -167,6 +215,8 @@ def check_case(case):
         return check_bins(case)
     if case[0] in ('big', 'range'):
         return check_big(case)
+    if case[0] == 'irr':
+        return check_irregular(case)
     from emd.spectra import hilberthuang, hilberthuang_1d
     _, scale, B, T, M, amp, fi, seed = case
     edges, centres = edges_for(scale, B, seed)
@@ -304,7 +354,7 @@ def snippet(case, kind):
 
 
 def nonvacuity(rep, ctx):
-    need = {'all-in', 'all-out', 'mixed', 'bins'}
+    need = {'all-in', 'all-out', 'mixed', 'bins', 'irregular'}
     if not need <= set(rep.classes):
         return ['vacuous: outcome classes %r' % dict(rep.classes)]
     return []
